@@ -90,6 +90,8 @@ pub struct Ev {
     pub sender: Option<Addr>,
     pub funds: Vec<Coin>,
     pub block: BlockInfo,
+    /// env.transaction and env.contract as shown to the entry point (rendered)
+    pub env_rest: String,
     pub reply: Option<Reply>,
     pub obs: Vec<(String, Obs)>,
     pub failed: bool,
@@ -226,6 +228,7 @@ fn enter(
         sender: info.as_ref().map(|i| i.sender.clone()),
         funds: info.as_ref().map(|i| i.funds.clone()).unwrap_or_default(),
         block: env.block.clone(),
+        env_rest: format!("{:?} {:?}", env.transaction, env.contract),
         reply,
         obs: vec![],
         failed: false,
